@@ -8,6 +8,12 @@ HOOK_COMMITS = subprocess.run(
 
 # id -> (technique, level text, level note)
 CHECKS = {
+ "C01": ("differential PBT against an independent reference-VM port (proptest, generated programs)", "Generated classic-operator programs (typed grammar + near-valid mutations + unknown opcodes) are executed by the implementation and by a function-by-function port of the reference Python clvm (own evaluator, own casts, own costs; adapters A1 div-floor and A2 softfork guard only); success, result tree and cost must agree at several budgets. The port is calibrated on every classic op-tests vector and the classic TEST_CASES before each run. Exploration: no proof of absence; the reference is my port, not the original package (absent from the sandbox).", "reference port trusted up to its calibration on the pinned vectors; error kinds not compared; known findings F6/F12 matched by exact signature"),
+ "C09": ("model-based PBT against the published unknown-opcode rule (u128 arithmetic) + constructed overflow corner", "op_unknown and run_program on generated opcode byte strings and argument lists (incl. multi-MiB operands constructed so that base*(multiplier+1) wraps modulo 2^64 to a small value) are compared with a direct transcription of the documented rule computed without wrap-around, both cost models, strict and lenient, several budgets.", "rule transcribed from the comment block in more_ops.rs; known finding F4 matched by signature (exact product >= 2^64 and returned cost == product mod 2^64)"),
+ "C10": ("model-based PBT against the documented cost formulas, calibrated on all op-tests vectors", "Every operator of ChiaDialect under both cost models (and MALACHITE) is called on argument lists built for success; the charged cost must equal the documented formula evaluated on argument lengths, limb counts and result length, directly and inside run_program; sha256tree over heavily shared DAGs.", "formulas written from docs/cost-model.md, docs/sha256tree.md and the constant blocks; where prose and pinned vectors differ the vectors decide (calibration step)"),
+ "C26": ("differential PBT (Hypothesis) wheel vs. Rust core through an oracle server", "Hypothesis drives (program bytes, env bytes, max_cost, 32-bit flag word) and byte strings through the wheel (run_serialized_chia_program, Program.run_with_cost, deser_*/ser_*, serde.py dispatch, serialized_length, deserialize_as_tree, Program.from_bytes*, to_bytes_2026, LazyNode views) and through the Rust harness built from the same tree; cost/result/error message/error node and all serializer outputs must be identical.", "oracle server = default build of /repo's working tree; wheel built offline from /repo/wheel without maturin; first runs bounded by max_cost <= 2*10^8"),
+ "C27": ("round-trip PBT (Hypothesis) over CLVM object kinds", "Generated DAGs wrapped in every CLVMStorage implementation the wheel ships plus plain objects and objects that build fresh children on every access; clvm_tree_to_lazy_node(obj) walked and deser_2026(ser_2026(.)) walked must both equal an independent classic encoding of the tree.", "fixed finding F2 (repo fix commit) kept as regression replay"),
+ "C28": ("differential PBT (Hypothesis) pure-Python helpers vs. Rust core", "sexp_to_bytes/stream vs. the Rust classic serializer on every object kind incl. length-prefix boundaries; sexp_from_stream/Program.parse vs. the Rust classic decoder on generated, mutated, prefix-structured and random byte strings (accept iff accept, same tree); int_to_bytes/int_from_bytes vs. Rust canonical integers up to 2^620; curry structure, curry_hash vs. independent tree hash, uncurry inverse; curried run == module run with arguments prepended.", "fixed finding F7 (repo fix commit) kept as regression replay; curry-run compares result/failure, not cost"),
  "C02": ("metamorphic PBT over budgets (proptest, generated programs)", "Generated programs are run at an unlimited budget and then at C, C-1, C+1, u64::MAX, 0 and generated budgets; soundness, monotonicity, tightness and the exact CostExceeded error are asserted. Exploration: finds budget bugs reachable by the generator, no proof of absence.", "program generator reach; pre-run cost for guards uses the implementation itself"),
  "C03": ("metamorphic PBT (allocator history / atom re-encoding)", "The same program is run in a fresh allocator, after a generated allocator history (incl. earlier and failing runs, BLS cache family), repeatedly, re-encoded with other atom representations and with sharing removed; outcomes must be identical.", "cases hitting allocator limits are skipped as the property allows"),
  "C04": ("differential PBT F vs F|ENABLE_GC", "Programs shaped to cross the 1 KiB / 48 byte reclamation thresholds are run with and without ENABLE_GC in identical fresh allocators (also heap-limited); outcome and atom/pair/heap counts must match.", "non-triviality measured by allocated_* counters of the allocator"),
@@ -47,7 +53,7 @@ for pid in props:
         "thorough_cmd": f"bin/check {pid} thorough",
         "evidence_file": f"/verif/evidence/{pid}.json",
         "replay_cmd_template": "bin/check --replay {path}",
-        "engine": "verif-harness",
+        "engine": "py-hypothesis" if pid in ("C26","C27","C28") else "verif-harness",
         "level_claimed": {"category": "exploration", "text": text, "design_ref": f"DESIGN.md section 5, {pid}"},
         "level_note": note or "generated-input search; bounds as stated in the evidence rule",
         "technique": tech,
@@ -64,8 +70,10 @@ manifest = {
         "add_only": True,
     },
     "engines": [
-        {"name": "verif-harness", "path": "/verif/harness", "serves_properties": [c["property_id"] for c in checks],
+        {"name": "verif-harness", "path": "/verif/harness", "serves_properties": [c["property_id"] for c in checks if c["engine"] == "verif-harness"],
          "kind_free_text": "Rust crate: proptest-driven choice-tape generators, independent reference models, parallel runner with shrinking, replay and evidence"},
+        {"name": "py-hypothesis", "path": "/verif/py", "serves_properties": ["C22", "C26", "C27", "C28"],
+         "kind_free_text": "Hypothesis checks of the Python wheel (built offline from /repo/wheel), differential against the Rust harness' oracle server (vh serve)"},
     ],
     "checks": checks,
     "not_applicable": na,
